@@ -2,6 +2,7 @@
 import KDVerif.Driver.J
 import KDVerif.Model.Geometry
 import KDVerif.Model.Rearrange
+import KDVerif.Model.C14Spec
 open Lean KDVerif.J
 
 namespace KDVerif.Geometry.Driver
@@ -125,6 +126,34 @@ def ratListList (v : Json) : Except String (List (List Rat)) := do
 
 def ofRatListList (l : List (List Rat)) : Json := Json.arr (l.map ofRatList).toArray
 
+
+/-- `Option Int` cells of a closed-form matrix (`none` = "no such cell" is sent as `null`) -/
+def ofOptIntListList (l : List (List (Option Int))) : Json :=
+  Json.arr (l.map (fun row => Json.arr (row.map (fun c => match c with | some v => ofInt v | none => Json.null)).toArray)).toArray
+
+def parsePad (v : Json) : Except String Pad := do
+  match (← intList v) with
+  | [a, b, c, d] => pure ⟨a, b, c, d⟩
+  | _ => throw "pad: 4 ints [l, t, r, b]"
+
+/-- height / width of a grid as the property theorems take them (`g.Shaped h w`) -/
+def gridH (g : Grid Int) : Nat := g.length
+def gridW (g : Grid Int) : Nat := (g.head?.map List.length).getD 0
+
+/-- the pad calls of a "geo.padcrop" request: explicit `pads`, or the model's own `padSeq` of a crop configuration
+    (`th`, `tw`, `padding`, `pin`), or the model's `semsegPad` for a target size `semseg = [th, tw]` -/
+def padsOf (j : Json) (g : Grid Int) : Except String (List Pad) := do
+  match j.getObjVal? "pads" with
+  | .ok v => (← v.getArr?).toList.mapM parsePad
+  | .error _ =>
+    match j.getObjVal? "semseg" with
+    | .ok v => do
+      let (th, tw) ← intPair v
+      pure [semsegPad (gridH g : Int) (gridW g : Int) th tw]
+    | .error _ => do
+      let c ← cropCfg j
+      pure (padSeq c (gridH g : Int) (gridW g : Int))
+
 def handle (op : String) (j : Json) : Except String Json :=
   match op with
   | "geo.crop" => do
@@ -190,6 +219,35 @@ def handle (op : String) (j : Json) : Except String Json :=
     let ops ← (← arr j "ops").toList.mapM parseOp
     let r := runPair (← int j "fillX") (← int j "fillS") ops (g, s)
     pure (Json.mkObj [("x", ofIntListList r.1), ("s", ofIntListList r.2)])
+  | "geo.padcrop" => do
+    -- the by-hand definitions of Model/C14Spec.lean, run on a concrete integer image with recorded parameters:
+    -- operational (`applyPads`, `Grid.cropBox`) and closed form (`paddedCell`, `padCropCell`), instantiated as in Props/C14
+    let g ← intListList (← val j "grid")
+    let fill ← int j "fill"
+    let ps ← padsOf j g
+    let boxes ← (← arr j "boxes").toList.mapM parseBox
+    let h := gridH g
+    let w := gridW g
+    let padded := applyPads fill ps g
+    let HH := (padH (h : Int) ps).toNat
+    let WW := (padW (w : Int) ps).toNat
+    let paddedSpec := (List.range HH).map (fun x => (List.range WW).map (fun y =>
+      paddedCell fill g h w (padTop ps) (padLeft ps) HH WW x y))
+    let outs := boxes.map (fun b => Json.mkObj [
+      ("op", ofIntListList (padded.cropBox b)),
+      ("spec", ofOptIntListList ((List.range b.h.toNat).map (fun r => (List.range b.w.toNat).map (fun k =>
+        padCropCell fill g h w ps b r k))))])
+    pure (Json.mkObj [("pads", Json.arr (ps.map padJson).toArray), ("HW", ofIntList [padH (h : Int) ps, padW (w : Int) ps]),
+      ("padded", ofIntListList padded), ("paddedSpec", ofOptIntListList paddedSpec), ("outs", Json.arr outs.toArray)])
+  | "geo.erasepaste" => do
+    let g ← intListList (← val j "grid")
+    let boxes ← (← arr j "boxes").toList.mapM parseBox
+    let vals ← intList (← val j "values")
+    if boxes.length != vals.length then throw "erasepaste: one value per box"
+    let bvs := boxes.zip vals
+    pure (Json.mkObj [("op", ofIntListList (erasePaste g bvs)),
+      ("spec", ofOptIntListList ((List.range (gridH g)).map (fun r => (List.range (gridW g)).map (fun c =>
+        eraseSpecCell g bvs r c))))])
   | "re.map" => do
     let p : Pattern := ⟨← strListList (← val j "lhs"), ← strListList (← val j "rhs")⟩
     let s := sizesOf (← sizesList (← val j "sizes"))
